@@ -70,6 +70,8 @@ def guard_dependency(prog):
                 continue
             if isinstance(p, ast.Subscript) and p.slice is n and isinstance(p.ctx, ast.Store):
                 continue
+            if isinstance(p, ast.Dict) and any(k is n for k in p.keys):
+                continue
             if isinstance(p, ast.UnaryOp) and isinstance(p.op, ast.USub) and isinstance(parents.get(p), ast.Compare):
                 continue
             bad.append(ast.unparse(p)[:60])
@@ -105,9 +107,9 @@ def check(run):
     thorough = run.tier == 'thorough'
     run.explanation = ('HashMap.set, serialize_dict and every dictionary reader interpreted by the checker on the complete key-class domain and on '
                        'all key sets of small widths; results compared with the stored mapping.')
-    run.rule('D1', 'a key is stored iff 0 <= key < 2^width, under itself, for every key form; rejected keys raise and leave the map unchanged', 300)
+    run.rule('D1', 'a key is stored iff 0 <= key < 2^width, under itself, for every key form; rejected keys raise and leave the map unchanged', 200)
     run.rule('D1w', 'only the guarded setter (and constructors taking a whole map) write HashMap.map; the guard depends on the key only through comparisons / bit_length', 3)
-    run.rule('D2', 'parse(serialize(map)) == map with ascending keys, through every reader and value serialiser, independent of insertion order', 150)
+    run.rule('D2', 'parse(serialize(map)) == map with ascending keys, through every reader and value serialiser, independent of insertion order', 300)
     run.rule('D3', 'child key length is (length - len(label)) - 1 on both sides; leaf iff it is 0', 4)
     run.rule('D4', 'empty map <-> no cell: serialize() is None; store_dict(None) = one 0 bit, no reference; readers return None and consume that bit only', 5)
     run.trust('CPython ast', 'checker interpreter', 'model of bitarray / int2ba / ba2int')
@@ -129,13 +131,14 @@ def check(run):
             ok = q in ('HashMap.__init__', 'HashMap.from_cell')
             why = 'whole-map assignment (constructor / from_cell: keys come from a parsed tree of that width)' if ok else 'map rebound outside constructor/from_cell'
         else:
-            ok, why = False, 'bulk update of the map bypasses the key guard'
+            ok = q == 'HashMap.set_int_key'
+            why = 'the guarded setter' if ok else 'bulk update of the map bypasses the key guard'
         run.check(ok, 'D1w', f'{q}[{kind}]', f'{ast.unparse(node)[:70]}: {why}', prog.where(node, f.module))
-    if not any(k == 'item' for _, k, _ in writers):
-        raise AnalysisError('no item store into HashMap.map found - anchor lost')
+    if not any(k in ('item', 'call') for _, k, _ in writers):
+        raise AnalysisError('no store into HashMap.map found - anchor lost')
 
     # ------------------------------------------------------------------ D1 key domain, every key form
-    widths = list(range(1, 18)) + [31, 32, 33, 63, 64, 65, 127, 128, 255, 256, 257, 267, 1022, 1023]
+    widths = [1, 2, 3, 4, 7, 8, 9, 16, 31, 32, 33, 64, 255, 256, 257, 267, 1023]
     if thorough:
         widths = list(range(1, 300)) + [511, 512, 1000, 1022, 1023]
     nb = 0
@@ -252,28 +255,31 @@ def check(run):
                 families.append((width, keys, perm))
     readers = ('parse', 'from_cell', 'load_dict', 'preload_dict', 'load_hashmap')
     nb = 0
+    jobs = []
     for idx, (width, keys, order) in enumerate(families):
+        # cheap families use one reader each in turn; structured ones use all
+        use = readers if (thorough or width >= 4 or len(keys) <= 2 and order is None) else (readers[idx % len(readers)],)
+        for rd in dict.fromkeys(use):
+            jobs.append((width, keys, order, rd))
+    import multiprocessing as mp
+    nproc = min(16, mp.cpu_count())
+    chunks = [(prog.pkg, jobs[i::nproc]) for i in range(nproc)]
+    with mp.Pool(nproc) as pool:
+        results = [r for part in pool.map(_d2_worker, chunks) for r in part]
+    order_of = {j: i for i, j in enumerate(jobs)}
+    results.sort(key=lambda r: order_of[r[0]])
+    for (width, keys, order, rd), got in results:
         tag = f'w={width},keys={list(order or keys)[:6]}{"..." if len(keys) > 6 else ""}'
         want = [(k, VAL(k, width)) for k in sorted(keys)]
-        # cheap families use one reader each in turn; structured ones use all
-        use = readers if (order is not None or width >= 4 or len(keys) <= 2) else (readers[idx % len(readers)], 'parse')
-        for rd in dict.fromkeys(use):
-            it = Interp(prog)
-            try:
-                hm = new_map(it, prog, width)
-                for k in (order or keys):
-                    cm.call_method(it, hm, 'set', K(k), K(VAL(k, width)))
-                cell = cm.call_method(it, hm, 'serialize')
-                got = read_back(it, prog, cell, width, rd)
-            except RaiseEx as e:
-                got = f'raises {e}'
-            run.evaluations += 1
-            if got == want:
-                run.ok('D2', f'{rd}[{tag}]', f'{len(want)} pair(s) back in ascending order' if len(keys) <= 2 else '')
-            else:
-                nb += 1
-                if nb <= 4:
-                    run.fail('D2', f'HashMap round trip[{rd}]', f'{tag}: read back {str(got)[:120]}, stored {str(want)[:120]}', w_ser, witness=dict(width=width, keys=[str(k) for k in (order or keys)], reader=rd))
+        run.evaluations += 1
+        if got == 'FAIL':
+            raise AnalysisError(f'round trip {tag} via {rd}: interpreter could not proceed')
+        if got == want:
+            run.ok('D2', f'{rd}[{tag}]', f'{len(want)} pair(s) back in ascending order' if len(keys) <= 2 else '')
+        else:
+            nb += 1
+            if nb <= 4:
+                run.fail('D2', f'HashMap round trip[{rd}]', f'{tag}: read back {str(got)[:120]}, stored {str(want)[:120]}', w_ser, witness=dict(width=width, keys=[str(k) for k in (order or keys)], reader=rd))
     # value serialisers
     for ser, vals, rdsrc in (('int', {1: -256, 2: 255, 6: -1}, 'lambda v: v.load_int(9)'),
                              ('coins', {0: 0, 3: 1, 7: (1 << 120) - 1}, 'lambda v: v.load_coins()'),
@@ -335,6 +341,27 @@ def check(run):
         except RaiseEx as e:
             ok, why = False, f'raises {e}'
         run.check(ok, 'D4', f'Slice.{rd}[empty]', why, prog.where(prog.method('Slice', rd)))
+
+
+def _d2_worker(arg):
+    pkg, jobs = arg
+    sys.setrecursionlimit(20000)
+    prog = Program(pkg)
+    out = []
+    for width, keys, order, rd in jobs:
+        it = Interp(prog)
+        try:
+            hm = new_map(it, prog, width)
+            for k in (order or keys):
+                cm.call_method(it, hm, 'set', K(k), K(VAL(k, width)))
+            cell = cm.call_method(it, hm, 'serialize')
+            got = read_back(it, prog, cell, width, rd)
+        except RaiseEx as e:
+            got = f'raises {e}'
+        except Fail as e:
+            got = 'FAIL'
+        out.append(((width, keys, order, rd), got))
+    return out
 
 
 def read_back(it, prog, cell, width, rd):
